@@ -427,6 +427,13 @@ func buildQuotesGroup() ([]*target, error) {
 	for _, n := range []string{"quote_v3_ecdsa_p256_eppid.bin", "quote_v4_tdx_ecdsa_p256_out_of_date.bin"} {
 		qseeds = append(qseeds, seed{n, readRepo("common/sgx/pcs/testdata/" + n)})
 	}
+	// certificate chains in which ONE block carries another PEM type (a CRL, a renamed certificate block - same length, so
+	// no length field changes): the decoders walk the blocks of a chain and must come to an end on every one of them
+	for _, s := range append([]seed{}, qseeds...) {
+		for i, v := range pemRelabelled(s.data) {
+			qseeds = append(qseeds, seed{fmt.Sprintf("%s+pem-block-%d-relabelled", s.name, i), v})
+		}
+	}
 	sgxBundle := fx[0].bundle
 	base := &target{
 		name: "pcs-quote", doc: "1 quote parsed, 2 Verify got past the PCK certificate chain, 3 Verify got past QE report / TCB checks or accepted",
@@ -474,11 +481,18 @@ func buildQuotesGroup() ([]*target, error) {
 		}
 	}
 	jb := must(json.Marshal(&sgxBundle))
+	var jbExtra, cbExtra []seed
+	for i, certs := range pemRelabelled(sgxBundle.Certificates) {
+		b := sgxBundle
+		b.Certificates = certs
+		jbExtra = append(jbExtra, seed{fmt.Sprintf("sgx-bundle+pem-block-%d-relabelled", i), must(json.Marshal(&b))})
+		cbExtra = append(cbExtra, seed{fmt.Sprintf("sgx-bundle+pem-block-%d-relabelled", i), cbor.Marshal(&b)})
+	}
 	tgs = append(tgs, &target{name: "pcs-tcbbundle-json", doc: "1 JSON decoded, 2 verification with the good quote got past the TCB certificate chain, 3 accepted",
-		seeds: []seed{{"sgx-bundle", jb}}, wantDepth: 3, cborPercent: -1,
+		seeds: []seed{{"sgx-bundle", jb}}, extra: jbExtra, wantDepth: 3, cborPercent: -1,
 		run: bundleRun(func(b []byte, v *pcs.TCBBundle) error { return json.Unmarshal(b, v) }, func(v *pcs.TCBBundle) ([]byte, error) { return json.Marshal(v) })})
 	tgs = append(tgs, &target{name: "pcs-tcbbundle-cbor", doc: "1 CBOR decoded, 2 verification with the good quote got past the TCB certificate chain, 3 accepted",
-		seeds: []seed{{"sgx-bundle", cbor.Marshal(&sgxBundle)}}, wantDepth: 3, hostile: true,
+		seeds: []seed{{"sgx-bundle", cbor.Marshal(&sgxBundle)}}, extra: cbExtra, wantDepth: 3, hostile: true,
 		run: bundleRun(func(b []byte, v *pcs.TCBBundle) error { return cbor.Unmarshal(b, v) }, func(v *pcs.TCBBundle) ([]byte, error) { return cbor.Marshal(v), nil })})
 	// (c) quote bundles
 	var qbSeeds, qbJSON []seed
@@ -772,3 +786,37 @@ func signTxValue() (*txSigned, error) {
 }
 
 var _ = time.Second
+
+// pemRelabelled returns copies of data in which the BEGIN and END lines of ONE PEM block (the first, the last) name
+// another type of the same length.
+func pemRelabelled(data []byte) [][]byte {
+	begin, end := []byte("-----BEGIN CERTIFICATE-----"), []byte("-----END CERTIFICATE-----")
+	var out [][]byte
+	var starts []int
+	for off := 0; ; {
+		i := bytes.Index(data[off:], begin)
+		if i < 0 {
+			break
+		}
+		starts = append(starts, off+i)
+		off += i + len(begin)
+	}
+	pick := map[int]bool{}
+	if len(starts) > 0 {
+		pick[0], pick[len(starts)-1] = true, true
+	}
+	for n, st := range starts {
+		if !pick[n] {
+			continue
+		}
+		e := bytes.Index(data[st:], end)
+		if e < 0 {
+			continue
+		}
+		c := append([]byte{}, data...)
+		copy(c[st:], "-----BEGIN CERTIFICATX-----")
+		copy(c[st+e:], "-----END CERTIFICATX-----")
+		out = append(out, c)
+	}
+	return out
+}
